@@ -1,6 +1,6 @@
 (* C09 -- AHB expressions are split into their parts (scanner model Model/Ahb.v, tied to Lark by correspondence), the
    indicators are normalised, and the first fulfilled part decides. *)
-From Ahb Require Import Model.Prelude Model.Grammar Gen.Gen_logic Gen.Gen_valmaps Gen.Gen_enums Model.EvalRC Model.EvalFC Model.EvalAhb Gen.Gen_grammar Gen.Gen_ahbgrammar Model.Lex Model.Ahb Proofs.C09_ahb Proofs.C09_split.
+From Ahb Require Import Model.Prelude Model.Grammar Gen.Gen_logic Gen.Gen_valmaps Gen.Gen_enums Model.EvalRC Model.EvalFC Model.EvalAhb Gen.Gen_grammar Gen.Gen_ahbgrammar Model.Lex Model.Ahb Proofs.C09_ahb Proofs.C09_split Proofs.C09_sound.
 
 (* every ASCII letter-case variant of M/Muss, S/Soll, K/Kann, X, O, U is mapped to its canonical indicator
    (over the callbacks regenerated from /repo) *)
@@ -52,3 +52,9 @@ Theorem C09_split_bare : forall w, (In w mm_spellings -> parse_ahb w = Ok [RP (T
                                    (In w po_spellings -> parse_ahb w = Ok [RP (TokPO w) None]).
 Proof. exact split_bare_indicator. Qed.
 Print Assumptions C09_split_bare.
+
+(* converse of C09_split: whatever the scanner accepts is the concatenation of the parts it returns, in written order -- one prefix-operator
+   part, or modal-mark parts of which only the last may lack a condition text; nothing is dropped, reordered or invented *)
+Theorem C09_split_sound : forall s ps, parse_ahb s = Ok ps -> s = print_raws ps /\ result_shape ps.
+Proof. exact parse_ahb_sound. Qed.
+Print Assumptions C09_split_sound.
